@@ -71,7 +71,7 @@ TERM_REMAINDER = [
 EMU_UNITS = ["emu_ascii", "emu_atascii", "emu_avatar", "emu_viewdata", "emu_mode7", "emu_ctrla", "emu_pcboard", "emu_renegade", "emu_petscii"]
 PROPS["C01"] = dict(
     units=["term_core", "ansi_cmds"] + EMU_UNITS,
-    kani_quick=["c01_ctrla_table_len", "c01_parse_next_number_nonneg", "std_spec_char_range_contains"],
+    kani_quick=["c01_ctrla_table_len", "c01_parse_next_number_nonneg", "std_spec_char_range_contains", "std_spec_i32_saturating_mul"],
     trusted_base=TERM_TRUST, unverified_remainder=TERM_REMAINDER,
     explanation="Every screen operation the emulations are built from (Line, Layer, TerminalState, Buffer geometry, the Caret "
                 "movements and Buffer::print_char / scroll / clear / insert / delete) is proved panic-free (index, overflow, "
